@@ -451,15 +451,25 @@ func c07Wiring(c *Ctx, g *load.G) {
 				seq = append(seq, n)
 			}
 		}
+		// on the normalised paths (a helper that builds the map is expanded): every rule of the grammar is stored under
+		// its name, unconditionally, in a loop over the rule list
 		allRules := false
-		ast.Inspect(pg.Body, func(n ast.Node) bool {
-			if rs, ok := n.(*ast.RangeStmt); ok && strings.HasSuffix(nospace(rs.X), ".Rules") && len(rs.Body.List) == 1 {
-				if as, ok := rs.Body.List[0].(*ast.AssignStmt); ok && strings.Contains(nospace(as.Lhs[0]), ".Name.Val]") {
-					allRules = true
+		for _, p := range c.builderNorm().without("ComputeNullables", "ComputeLeftRecursives").normPaths(pg) {
+			for i, e := range p {
+				if e.Kind != "loop" || !strings.HasPrefix(e.Text, "range ") || !strings.HasSuffix(e.Text, ".Rules") {
+					continue
+				}
+				list := strings.TrimPrefix(e.Text, "range ")
+				for _, b := range p[i+1:] {
+					if b.Kind == "endloop" || b.Kind == "+" {
+						break
+					}
+					if b.Kind == "set" && strings.Contains(b.Text, "["+list+"[#1].Name.Val]="+list+"[#1]") {
+						allRules = true
+					}
 				}
 			}
-			return true
-		})
+		}
 		r.Check(strings.Join(seq, ",") == "ComputeNullables,ComputeLeftRecursives" && allRules, "C07-b", "G.builder.PrepareGrammar:nullables-before-first-graph", "", g.Where(pg.Pos()), "all rules mapped by name; nullables, then left-recursives", "order is ["+strings.Join(seq, ",")+"], all rules mapped="+fmt.Sprint(allRules))
 	} else {
 		r.Fatal("anchor builder.PrepareGrammar not found")
